@@ -78,6 +78,7 @@ Definition dispatch_wf (p : Z) (i : sx) : bool :=
   match p with
   | 1%Z => C01.Model.wf i
   | 2%Z => C02.Model.wf i
+  | 10%Z => C10.Model.wf i
   | 16%Z => C16.Model.wf i
   | _ => true
   end.
